@@ -118,6 +118,16 @@ class FindInConstants(FindByGlob):
                 else:
                     yield str(result)
 
+    def _parent_exists(self, root: Sid) -> bool:
+        """
+        True if the parent of root (which is not a search) exists in the parent_source,
+        or if there is no parent or no parent_source to ask.
+        """
+        parent = root.parent
+        if not self.parent_source or not parent or parent == root:
+            return True
+        return self.parent_source.exists(parent)
+
     def star_search(
         self, search_sids: List[Sid], as_sid: bool = False, do_sort: bool = False
     ) -> Iterator[Sid] | Iterator[str]:
@@ -131,8 +141,11 @@ class FindInConstants(FindByGlob):
             if not root:
                 continue
 
-            # nothing to search, we yield
+            # nothing to search, we yield (the constants exist only below an existing parent)
             if "*" not in str(root):
+
+                if not self._parent_exists(root):
+                    continue
 
                 if root not in done:
                     # done.add(root)  # TODO: useful ?
@@ -169,6 +182,8 @@ class FindInConstants(FindByGlob):
 
             # no parent search, we just need to append the constant values
             else:
+                if not self._parent_exists(root):
+                    continue
                 generator = self._append_value(root, done, as_sid=as_sid)
                 yield from generator
 
